@@ -271,6 +271,15 @@ def check_flag_writes(ctx, model):
             leaked = [s_.block for s_ in srcs if s_.block is not None and s_.block in reach_none]
             ctx.ob("C17-P4", "%s|update_config|feature_toggle|only-when-named" % crate, bool(cut_none) and not leaked,
                    "with the request's feature_toggle absent the assignment is %s" % ("reachable" if leaked or not cut_none else "unreachable"), v.where(sb))
+            # ... and ALWAYS when named, whatever else the same request carries: with feature_toggle = Some(..) no path
+            # reaches the CONFIG.save without passing an assignment of the flag set (a toggle chained as `else if` behind
+            # another optional field is silently dropped when both are given, and the pause never takes effect)
+            cut_some = variant_excluded_edges(v, "option::Option", pred, "Some")
+            ablocks = [s_.block for s_ in srcs if s_.block is not None]
+            if cut_some and ablocks:
+                skipped = sb in v.reachable(0, cut_edges=cut_some, cut_blocks=ablocks)
+                ctx.ob("C17-P4", "%s|update_config|feature_toggle|always-when-named" % crate, not skipped,
+                       "with the request's feature_toggle present the CONFIG.save is %s without the assignment" % ("reachable" if skipped else "unreachable"), v.where(sb))
 
 
 def check_defaults(ctx, model, crate, inst, flagset, adt_rx):
